@@ -1,8 +1,8 @@
-(* Topic-name and topic-filter grammar of gneiss-mqtt/src/validate.rs:240-332.
+(* Topic-name and topic-filter grammar of gneiss-mqtt/src/validate.rs:240-341.
 
-   Strings are UTF-8 byte lists.  The Rust code works on `&str`: `contains(['#','+'])`,
-   `split('/')`, `segment == "#"`, `segment == "$share"` and `len()` (BYTE length).  The four
-   characters it looks for ('/' 47, '+' 43, '#' 35 and the ASCII string "$share") are ASCII, and in
+   Strings are UTF-8 byte lists.  The Rust code works on `&str`: `contains(['#','+'])`, `contains('\0')`,
+   `split('/')`, `segment == "#"`, `segment == "$share"` and `len()` (BYTE length).  The
+   characters it looks for ('/' 47, '+' 43, '#' 35, U+0000 and the ASCII string "$share") are ASCII, and in
    well-formed UTF-8 every byte of a multi-byte character is >= 128, so none of them can occur
    inside a multi-byte character: searching / splitting on the BYTE values is exactly what the
    char-level Rust functions compute on every valid `&str` (and `len()` is already in bytes).
@@ -21,10 +21,14 @@ Definition DOLLAR_SHARE : bytes := [36; 115; 104; 97; 114; 101].    (* "$share" 
 (* str::contains(['#', '+']) *)
 Definition contains_wildcard (s : bytes) : bool := existsb (fun b => (b =? HASH) || (b =? PLUS)) s.
 
-(* is_valid_topic 240-250 *)
+(* str::contains('\0') *)
+Definition contains_nul (s : bytes) : bool := existsb (fun b => b =? 0) s.
+
+(* is_valid_topic 240-254 *)
 Definition is_valid_topic (topic : bytes) : bool :=
   if (len topic =? 0) || (MAXIMUM_STRING_PROPERTY_LENGTH <? len topic) then false
   else if contains_wildcard topic then false
+  else if contains_nul topic then false
   else true.
 
 (* str::split('/'): always at least one segment; "a/" gives ["a"; ""].
@@ -44,7 +48,7 @@ Fixpoint beqb (a b : bytes) : bool :=
   | _, _ => false
   end.
 
-(* TopicFilterProperties 253-257 *)
+(* TopicFilterProperties 257-261 *)
 Record topic_filter_props := { tf_is_valid : bool; tf_is_shared : bool; tf_has_wildcard : bool }.
 
 (* loop state of compute_topic_filter_properties *)
@@ -55,7 +59,7 @@ Record tf_state := {
 Definition ts_props (s : tf_state) : topic_filter_props :=
   {| tf_is_valid := ts_is_valid s; tf_is_shared := ts_is_shared s; tf_has_wildcard := ts_has_wildcard s |}.
 
-(* the loop body 274-303; `break` = stop and return the state as it is *)
+(* the loop body 283-312; `break` = stop and return the state as it is *)
 Fixpoint tf_loop (index : N) (segments : list bytes) (s : tf_state) : tf_state :=
   match segments with
   | [] => s
@@ -96,13 +100,15 @@ Definition tf_initial : tf_state :=
   {| ts_is_valid := true; ts_is_shared := false; ts_has_wildcard := false;
      ts_has_share_prefix := false; ts_has_share_name := false; ts_seen_mlw := false |}.
 
-(* compute_topic_filter_properties 259-306 *)
+(* compute_topic_filter_properties 263-315 *)
 Definition topic_filter_properties (topic : bytes) : topic_filter_props :=
   if (len topic =? 0) || (MAXIMUM_STRING_PROPERTY_LENGTH <? len topic)
   then {| tf_is_valid := false; tf_is_shared := false; tf_has_wildcard := false |}
+  else if contains_nul topic
+  then {| tf_is_valid := false; tf_is_shared := false; tf_has_wildcard := false |}
   else ts_props (tf_loop 0 (split_slash topic) tf_initial).
 
-(* is_valid_topic_filter_internal 308-332.  [settings] = context.negotiated_settings projected on
+(* is_valid_topic_filter_internal 317-341.  [settings] = context.negotiated_settings projected on
    the two fields used: (shared_subscriptions_available, wildcard_subscriptions_available);
    None = negotiated_settings is None: `.unwrap()` panics (Panic 50), but only on the paths that
    reach an unwrap. *)
